@@ -66,3 +66,4 @@ package ggql
 //@   ensures[derived-when-missing] old(root.schema) == nil ==> fresh(root.schema)
 //@   assigns fresh, root.schema
 //@   loop 0: invariant[new-schema] old(root.schema) == nil && root.schema != nil && fresh(root.schema) && fresh(root.schema.fields.dict) && root.types == old(root.types)
+//@           invariant[own-array] root.schema.fields.list == nil || fresh(root.schema.fields.list)
